@@ -1,0 +1,16 @@
+//go:build verif
+
+package link_holdopen_controller
+
+// VerifGate, when set, is called at the schedule points of this package with
+// the name of the point. The "acquire" point (start of the asynchronous
+// reference acquisition, before its critical section) and the
+// "acquire.locked" point (inside that critical section) may block; the
+// others are notifications and must return immediately.
+var VerifGate func(name string)
+
+func verifGate(name string) {
+	if g := VerifGate; g != nil {
+		g(name)
+	}
+}
